@@ -84,7 +84,7 @@ func loadKnown(verif string) []KnownFinding {
 	return k
 }
 
-var unsafeName = regexp.MustCompile(`[^A-Za-z0-9_.#:-]+`)
+var unsafeName = regexp.MustCompile(`[^A-Za-z0-9_.-]+`)
 
 func runProperty(ctx *Ctx, o *Options, t0 time.Time) int {
 	sp := ctx.specs
@@ -250,6 +250,9 @@ func runProperty(ctx *Ctx, o *Options, t0 time.Time) int {
 			violations = append(violations, path)
 		}
 	}
+	bReports, bViol, bKnown := runBounded(o, sp, P, keys, known)
+	violations = append(violations, bViol...)
+	knownHit = append(knownHit, bKnown...)
 	sort.Strings(undecided)
 	wall := time.Since(t0).Seconds()
 	// 3. evidence
@@ -301,6 +304,7 @@ func runProperty(ctx *Ctx, o *Options, t0 time.Time) int {
 			"backends":                  backendCount,
 			"solver_s":                  round3(solverTime),
 			"samples":                   samples,
+			"bounded_standins":          bReports,
 			"known_findings_reproduced": knownHit,
 			"undecided":                 undecided,
 			"contract_files":            shortPaths(sp.Files),
@@ -450,23 +454,22 @@ func modelValues(model string) map[string]string {
 	return vals
 }
 
-// runHarness runs the replay harness of the function's package (if one exists) against the real code.
-func runHarness(o *Options, ob *Obligation, vals map[string]string) (bool, string, string) {
-	parts := strings.Split(ob.Func, ".")
-	pkg := parts[0]
+// runGoTest runs one test of /verif/harness/<pkg>/replay_test.go inside the real package
+// (overlay-injected, nothing is written to /repo).
+func runGoTest(o *Options, pkg, test string, env []string, timeout string) (out string, cmdStr string, found bool) {
 	hfile := filepath.Join(o.Verif, "harness", pkg, "replay_test.go")
 	if _, err := os.Stat(hfile); err != nil {
-		return false, "no replay harness for package " + pkg, ""
+		return "no harness for package " + pkg, "", false
 	}
 	pkgDir := ""
 	filepath.Walk(o.Repo, func(p string, info os.FileInfo, err error) error {
-		if err == nil && info.IsDir() && filepath.Base(p) == pkg && pkgDir == "" && !strings.Contains(p, "/vendor/") {
+		if err == nil && info.IsDir() && filepath.Base(p) == pkg && pkgDir == "" && !strings.Contains(p, "/vendor/") && !strings.Contains(p, "/.git/") {
 			pkgDir = p
 		}
 		return nil
 	})
 	if pkgDir == "" {
-		return false, "package directory not found", ""
+		return "package directory not found", "", false
 	}
 	tmp, _ := os.MkdirTemp("", "gcvreplay")
 	defer os.RemoveAll(tmp)
@@ -474,18 +477,88 @@ func runHarness(o *Options, ob *Obligation, vals map[string]string) (bool, strin
 	ovData, _ := json.Marshal(ov)
 	ovFile := filepath.Join(tmp, "ov.json")
 	os.WriteFile(ovFile, ovData, 0o644)
-	mv, _ := json.Marshal(vals)
-	test := "TestReplay_" + unsafeName.ReplaceAllString(strings.Join(parts[1:], "_"), "_")
-	args := []string{"test", "-overlay", ovFile, "-vet=off", "-count=1", "-timeout", "120s", "-run", "^" + test + "$", "."}
+	args := []string{"test", "-v", "-overlay", ovFile, "-vet=off", "-count=1", "-timeout", timeout, "-run", "^" + test + "$", "."}
 	cmd := exec.Command("go", args...)
 	cmd.Dir = pkgDir
-	cmd.Env = append(os.Environ(), "GOFLAGS=-mod=mod", "GOPROXY=off", "GOSUMDB=off", "GOTOOLCHAIN=local",
-		"VERIF_OBLIGATION="+ob.Name, "VERIF_MODEL="+string(mv))
-	out, _ := cmd.CombinedOutput()
-	s := string(out)
-	if len(s) > 4000 {
-		s = s[:4000]
+	cmd.Env = append(append(os.Environ(), "GOFLAGS=-mod=mod", "GOPROXY=off", "GOSUMDB=off", "GOTOOLCHAIN=local"), env...)
+	b, _ := cmd.CombinedOutput()
+	out = string(b)
+	if len(out) > 6000 {
+		out = out[:3000] + "\n...\n" + out[len(out)-3000:]
 	}
-	cmdStr := fmt.Sprintf("cd %s && VERIF_OBLIGATION='%s' go test -overlay <{\"Replace\":{\"%s/zz_verif_replay_test.go\":\"%s\"}}> -vet=off -count=1 -timeout 120s -run '^%s$' .", pkgDir, ob.Name, pkgDir, hfile, test)
-	return strings.Contains(s, "REPLAY-CONFIRMED"), s, cmdStr
+	cmdStr = fmt.Sprintf("cd %s && %s go test -overlay <(echo '%s') -vet=off -count=1 -timeout %s -run '^%s$' .", pkgDir, strings.Join(env, " "), string(ovData), timeout, test)
+	return out, cmdStr, true
+}
+
+// runHarness replays a failed obligation: the harness of the function's package tries the
+// model's values and a small input space on the real function and prints REPLAY-CONFIRMED
+// with the concrete failing input when it finds one.
+func runHarness(o *Options, ob *Obligation, vals map[string]string) (bool, string, string) {
+	parts := strings.Split(ob.Func, ".")
+	mv, _ := json.Marshal(vals)
+	test := "TestReplay_" + unsafeName.ReplaceAllString(strings.Join(parts[1:], "_"), "_")
+	out, cmd, _ := runGoTest(o, parts[0], test, []string{"VERIF_OBLIGATION=" + ob.Name, "VERIF_MODEL=" + string(mv), "VERIF_TIER=" + o.Tier}, "120s")
+	return strings.Contains(out, "REPLAY-CONFIRMED"), out, cmd
+}
+
+type boundedReport struct {
+	Name    string  `json:"name"`
+	Bound   string  `json:"bound"`
+	Result  string  `json:"result"`
+	WallS   float64 `json:"wall_s"`
+	Summary string  `json:"summary"`
+}
+
+// runBounded runs the bounded stand-ins attached to the contracts of the property.
+func runBounded(o *Options, sp *Specs, P string, keys []string, known []KnownFinding) (reports []boundedReport, violations, knownHit []string) {
+	for _, key := range keys {
+		fc := sp.Funcs[key]
+		for _, bd := range fc.Bounded {
+			name := key + "#bounded:" + bd.Test
+			t0 := time.Now()
+			timeout := "300s"
+			if o.Tier == "thorough" {
+				timeout = "1800s"
+			}
+			out, cmd, found := runGoTest(o, strings.Split(key, ".")[0], bd.Test, []string{"VERIF_TIER=" + o.Tier, "VERIF_SEED=" + os.Getenv("VERIF_SEED")}, timeout)
+			rep := boundedReport{Name: name, Bound: bd.Bound, WallS: round3(time.Since(t0).Seconds())}
+			for _, l := range strings.Split(out, "\n") {
+				if strings.HasPrefix(l, "BOUNDED ") {
+					rep.Summary = l
+				}
+			}
+			ok := found && strings.Contains(out, "\nok  \t") || strings.HasPrefix(out, "ok  \t")
+			if ok && !strings.Contains(out, "REPLAY-CONFIRMED") {
+				rep.Result = "held on the whole bounded space"
+				reports = append(reports, rep)
+				continue
+			}
+			rep.Result = "violated"
+			reports = append(reports, rep)
+			isKnown := false
+			for _, k := range known {
+				if k.Property == P && k.Status == "open" && k.Obligation == name {
+					isKnown = true
+					knownHit = append(knownHit, fmt.Sprintf("KNOWN-FINDING: property=%s %s %s", P, name, k.What))
+				}
+			}
+			if isKnown {
+				continue
+			}
+			dir := filepath.Join(o.Verif, "replay", P)
+			os.MkdirAll(dir, 0o755)
+			path := filepath.Join(dir, unsafeName.ReplaceAllString(name, "_")+".json")
+			confirmed := strings.Contains(out, "REPLAY-CONFIRMED")
+			rec := map[string]interface{}{"property": P, "obligation": name, "kind": "bounded stand-in on the real code", "bound": bd.Bound,
+				"replay_cmd": cmd, "replay_output": out, "confirmed_on_real_code": confirmed}
+			data, _ := json.MarshalIndent(rec, "", " ")
+			os.WriteFile(path, data, 0o644)
+			line := fmt.Sprintf("VIOLATION property=%s replay=%s obligation=%s", P, path, name)
+			if !confirmed {
+				line += " no-failing-input-found"
+			}
+			violations = append(violations, line)
+		}
+	}
+	return
 }
